@@ -288,9 +288,11 @@ class MacroEngine(c01.CallEngine):
                 if full not in kc_defined and rng.random() < 0.85:
                   kc_defined.add(full)
                   ops.append(['constant', full, ['obj', oid]])
-            items = [[['macro', k], rng.choice([['i', j], ['macro', rng.choice(MACROS)], ['s', 'v%d' % j]])] for j, k in enumerate(ks)]
-            if rng.random() < 0.4:
-              items.insert(rng.randrange(len(items) + 1), [['s', 'plain'], rng.choice([['macro', m], ['i', 7]])])
+            # (under a macro key stands a literal, macro values stand under literal keys: whether the key or the value of ONE
+            # item is evaluated first is CPython's deepcopy order, observable only if both run something or raise; not modelled)
+            items = [[['macro', k], rng.choice([['i', j], ['s', 'v%d' % j]])] for j, k in enumerate(ks)]
+            for j in range(rng.choice([0, 0, 1, 1, 2])):
+              items.insert(rng.randrange(len(items) + 1), [['s', 'plain%d' % j], rng.choice([['macro', m], ['macro', rng.choice(MACROS)], ['i', 7]])])
             v = ['d', items]
             if rng.random() < 0.2:
               v = ['l', [['d', [it]] for it in items]]       # one literal per key: nothing can merge
